@@ -105,6 +105,20 @@ var zoo = []zooSnippet{
 		Method: "// @Method(POST)\n// @Route(/zoo%N)\n// @Body(b)\nfunc (c *ZooCtl) M%N(b Opt%N[int]) (*Opt%N[string], error) {\n\treturn nil, nil\n}\n"},
 	{Name: "context-twice", Imports: []string{"context"},
 		Method: "// @Method(GET)\n// @Route(/zoo%N)\nfunc (c *ZooCtl) M%N(a context.Context, b context.Context) error {\n\treturn nil\n}\n"},
+	{Name: "generic-unexported-field-first", Decls: "type HBox%N[T any] struct {\n\thidden int\n\tV      T `json:\"v\"`\n}\n",
+		Method: "// @Method(GET)\n// @Route(/zoo%N)\nfunc (c *ZooCtl) M%N() (HBox%N[string], error) {\n\treturn HBox%N[string]{}, nil\n}\n"},
+	{Name: "generic-json-dash-field-first", Decls: "type DBox%N[A any, B any] struct {\n\tSkip A `json:\"-\"`\n\tL    A `json:\"l\"`\n\tskip B\n\tR    B `json:\"r\"`\n}\n",
+		Method: "// @Method(POST)\n// @Route(/zoo%N)\n// @Body(b)\nfunc (c *ZooCtl) M%N(b DBox%N[int, string]) (DBox%N[bool, int], error) {\n\treturn DBox%N[bool, int]{}, nil\n}\n"},
+	{Name: "generic-only-hidden-fields", Decls: "type NBox%N[T any] struct {\n\tv T\n}\n",
+		Method: "// @Method(GET)\n// @Route(/zoo%N)\nfunc (c *ZooCtl) M%N() (NBox%N[string], error) {\n\treturn NBox%N[string]{}, nil\n}\n"},
+	{Name: "generic-embedded-param-struct", Decls: "type EBase%N struct {\n\tID int `json:\"id\"`\n}\n\ntype EBox%N[T any] struct {\n\tEBase%N\n\tV T `json:\"v\"`\n}\n",
+		Method: "// @Method(GET)\n// @Route(/zoo%N)\nfunc (c *ZooCtl) M%N() (EBox%N[string], error) {\n\treturn EBox%N[string]{}, nil\n}\n"},
+	{Name: "array-length-named-constant", Decls: "const DigestSize%N = 4\n\ntype Digest%N struct {\n\tSum [DigestSize%N]int `json:\"sum\"`\n}\n",
+		Method: "// @Method(GET)\n// @Route(/zoo%N)\nfunc (c *ZooCtl) M%N() (Digest%N, error) {\n\treturn Digest%N{}, nil\n}\n"},
+	{Name: "array-length-expression", Decls: "const Half%N = 2\n\ntype Wide%N struct {\n\tSum [2 * Half%N]byte `json:\"sum\"`\n\tP   [(4)]int       `json:\"p\"`\n\tH   [0x4]int       `json:\"h\"`\n}\n",
+		Method: "// @Method(POST)\n// @Route(/zoo%N)\n// @Body(b)\nfunc (c *ZooCtl) M%N(b Wide%N) ([2 * Half%N]string, error) {\n\treturn [2 * Half%N]string{}, nil\n}\n"},
+	{Name: "array-query-parameter",
+		Method: "// @Method(GET)\n// @Route(/zoo%N)\n// @Query(ids)\nfunc (c *ZooCtl) M%N(ids [3]int) error {\n\treturn nil\n}\n"},
 	{Name: "many-results",
 		Method: "// @Method(GET)\n// @Route(/zoo%N)\nfunc (c *ZooCtl) M%N() (int, string, bool, error) {\n\treturn 0, \"\", false, nil\n}\n"},
 }
@@ -148,6 +162,43 @@ var badAnnotations = []string{
 	"// @Path(q)", "// @Path()", "// @Path({q})", "// @Query(q q)", "// @Query(q) \x01\x02 control", "// @Query(q, {a:1e999})", "// @Query(q, {a:0x})", "// @Query(q, {a:+Infinity, b:NaN})",
 	"// @Query(q, " + strings.Repeat("{a:", 120) + "1" + strings.Repeat("}", 120) + ")", "// @Query(q, {a:" + strings.Repeat("[", 300) + strings.Repeat("]", 300) + "})",
 	"// @Query(q, {name:\"" + strings.Repeat("x", 5000) + "\"})", "// @Tag(x)", "// @Foo", "// @(x)", "// @@Query(q)", "//@Query(q)",
+}
+
+// every annotation x property x ill-typed JSON5 value
+var annHeads = []string{"Query(q", "Header(q", "Path(q", "Body(q", "FormField(q", "Security(apiKeyAuth", "Method(GET", "Route(/anntarget", "Response(200", "ErrorResponse(400", "Deprecated(x", "Hidden(x", "TemplateContext(x", "Description(x"}
+var annProps = []string{"name", "validate", "scopes", "description", "mode", "value"}
+var annValues = []string{"null", "7", "1.5", "true", `"text"`, "[]", "[null]", "[1]", `["a", null]`, "{}", "{a: null}", `[["a"]]`, "undefined", "-0"}
+
+// annotationMatrix lists the ill-typed property cases: pairs the parser gives a meaning to are always
+// included, the rest of the product is sampled 1 in 6 (by seed) in the quick tier.
+func annotationMatrix(seed int64, full bool) (method []string, controller []string) {
+	known := map[string]bool{"Security(apiKeyAuth/scopes": true}
+	for _, h := range []string{"Query(q", "Header(q", "Path(q", "Body(q", "FormField(q"} {
+		known[h+"/name"], known[h+"/validate"] = true, true
+	}
+	i := 0
+	for _, h := range annHeads {
+		for _, pr := range annProps {
+			for _, v := range annValues {
+				i++
+				if full || known[h+"/"+pr] || (int64(i)+seed)%6 == 0 {
+					method = append(method, "// @"+h+", {"+pr+": "+v+"})")
+				}
+			}
+		}
+	}
+	for _, pr := range annProps {
+		for _, v := range annValues {
+			i++
+			if full || pr == "scopes" || (int64(i)+seed)%6 == 0 {
+				controller = append(controller, "// @Security(apiKeyAuth, {"+pr+": "+v+"})")
+			}
+			if full || (int64(i)+seed)%6 == 1 {
+				controller = append(controller, "// @Route(/x, {"+pr+": "+v+"})", "// @Tag(T, {"+pr+": "+v+"})")
+			}
+		}
+	}
+	return
 }
 
 var badControllerAnnotations = []string{
